@@ -98,11 +98,16 @@ type admitEv struct {
 	amt int64
 }
 
-// checkBound verifies sum(amount over admissions i..j) <= burst + (tj-ti)*average/period + 1 for all i<=j.
+// checkBound verifies sum(amount over admissions i..j) <= burst + (tj-ti)/(period/average) + 1, the token time period/average taken in whole nanoseconds for all i<=j.
 // Exact: period*(Pj - P(i-1)) - average*(tj - ti) <= period*(burst+1).
 func checkBound(log []admitEv, rs rateSpec) (ok bool, i0, j0 int, excess string) {
-	per := big.NewInt(int64(rs.Period))
-	avg := big.NewInt(rs.Average)
+	// period/average is the bucket's token time: a time.Duration, i.e. whole nanoseconds (6 300 000 per hour: 571 428ns).
+	// The bound is evaluated with that duration, as the statement's formula reads in Go: burst + T/(period/average) + 1.
+	if int64(rs.Period)/rs.Average == 0 {
+		return true, 0, 0, "" // more than one token per nanosecond: not decided
+	}
+	per := big.NewInt(int64(rs.Period) / rs.Average)
+	avg := big.NewInt(1)
 	limit := new(big.Int).Mul(per, big.NewInt(rs.Burst+1))
 	var minV *big.Int // min over i of period*P(i-1) - average*t_i
 	minI := 0
@@ -128,11 +133,14 @@ type admitEvB struct {
 	t, amt, b int64 // ns since start, amount, burst in force at that admission
 }
 
-// checkBoundB: for all i<=j: sum(amount i..j) <= b_i + (tj-ti)*average/period + 1, b_i = burst in force at admission i.
+// checkBoundB: for all i<=j: sum(amount i..j) <= b_i + (tj-ti)/(period/average) + 1, the token time period/average taken in whole nanoseconds, b_i = burst in force at admission i.
 // Exact: [period*P_j - average*t_j] - [period*P_(i-1) - average*t_i + period*b_i] <= period.
 func checkBoundB(log []admitEvB, rs rateSpec) (ok bool, i0, j0 int, excess string) {
-	per := big.NewInt(int64(rs.Period))
-	avg := big.NewInt(rs.Average)
+	if int64(rs.Period)/rs.Average == 0 {
+		return true, 0, 0, ""
+	}
+	per := big.NewInt(int64(rs.Period) / rs.Average) // token time in whole nanoseconds, see checkBound
+	avg := big.NewInt(1)
 	var minV *big.Int
 	minI := 0
 	var prefix int64
@@ -359,7 +367,7 @@ func c03Bound(c *Ctx) {
 					if T > rateTTL(rs)-2*time.Second {
 						key = "bound/exceeded-across-entry-lifetime"
 					}
-					c.Violation(key, sfmt("rates %v source s%d rate %v: admitted %d in the interval [%v,%v] of length %v; bound burst+T*avg/period+1 exceeded by %s", rs, s, x, sum, time.Duration(a.t), time.Duration(b.t), T, ex), desc)
+					c.Violation(key, sfmt("rates %v source s%d rate %v: admitted %d in the interval [%v,%v] of length %v; bound burst+T/(period/average)+1 (token time in whole nanoseconds) exceeded by %s", rs, s, x, sum, time.Duration(a.t), time.Duration(b.t), T, ex), desc)
 					return
 				}
 				c.Count("intervals_checked_end_points", int64(len(logs[s])))
@@ -588,7 +596,7 @@ func c03Reconfig(c *Ctx) {
 						for k := i0; k <= j0; k++ {
 							sum += logs[s][k].amt
 						}
-						c.Violation("reconfig/bound-exceeded", sfmt("epoch %d after the rate set was changed in place (history of rate sets %v): source s%d rate %v: admitted %d in the interval [%v,%v] of the epoch, length %v; bound burst+T*avg/period+1 exceeded by %s", e, epochRates, s, x, sum, time.Duration(a.t), time.Duration(b.t), time.Duration(b.t-a.t), ex),
+						c.Violation("reconfig/bound-exceeded", sfmt("epoch %d after the rate set was changed in place (history of rate sets %v): source s%d rate %v: admitted %d in the interval [%v,%v] of the epoch, length %v; bound burst+T/(period/average)+1 (token time in whole nanoseconds) exceeded by %s", e, epochRates, s, x, sum, time.Duration(a.t), time.Duration(b.t), time.Duration(b.t-a.t), ex),
 							map[string]any{"epoch_rates": epochRates, "via_extractor": viaExtract, "sources": nsrc})
 						return
 					}
